@@ -27,7 +27,7 @@ META = {
             "the space's regions and the available count equals the free chunks; three broken "
             "variants are rejected. The real Map32 is then run on every history (modulo renaming "
             "of spaces) up to length 5 on 4 chunks / 2 spaces and length 3 on 5 chunks / 3 spaces "
-            "(7 resp. 5 in the thorough tier), through CommonPageResource and through the raw "
+            "(7 on 4 and 5 chunks / 2 spaces, 5 on 5 and 6 chunks / 3 spaces in the thorough tier), through CommonPageResource and through the raw "
             "VMMap calls (free_all_chunks from any region), plus long random histories on 24/64 "
             "chunks; TLC validates descriptors, list walks, region sizes and the available count "
             "after every call. Exhaustive small scope + random is the right level for a "
@@ -165,12 +165,14 @@ def run(ctx):
             ("r24", 24, 3, rnd(24, 3, 4, 3, 300)),
         ]
     else:
-        plan = [("t4p%d" % i, 4, 2, tree(4, 2, 2, 7, "pr", R + ["--shard", "%d/8" % i])) for i in range(8)]
+        plan = [("t4p%d" % i, 4, 2, tree(4, 2, 2, 7, "pr", R + ["--shard", "%d/6" % i])) for i in range(6)]
         plan += [("t4r%d" % i, 4, 2, tree(4, 2, 2, 6, "raw", R + ["--shard", "%d/2" % i])) for i in range(2)]
+        plan += [("u5p%d" % i, 5, 2, tree(5, 2, 2, 7, "pr", R + ["--shard", "%d/6" % i])) for i in range(6)]
         plan += [
             ("t5p", 5, 3, tree(5, 3, 3, 5, "pr", R)),
-            ("t5r", 5, 3, tree(5, 3, 3, 4, "raw", R)),
-            ("t6", 6, 3, tree(6, 3, 3, 4, "pr,raw", R)),
+            ("t5r", 5, 3, tree(5, 3, 3, 5, "raw", R)),
+            ("t6p", 6, 3, tree(6, 3, 3, 5, "pr", R)),
+            ("t6r", 6, 3, tree(6, 3, 3, 4, "raw", R)),
             ("f4", 4, 2, tree(4, 2, 2, 4, "pr,raw")),
             ("f5", 5, 3, tree(5, 3, 3, 3, "pr,raw")),
             ("l32", 5, 3, tree(5, 3, 3, 3, "pr,raw", R + ["--layout", "32bit", "--offset", 0])),
